@@ -49,6 +49,48 @@ ChkF2(name, idx, cond, f1, c1, f2, c2) ==
   cond \/ (PrintT(<<"FAIL", name, idx>>) /\ (c1 => PrintT(<<"FINDING", f1, idx>>)) /\ (c2 => PrintT(<<"FINDING", f2, idx>>)) /\ FALSE)
 
 (***************************************************************************)
+(* Tameness of the recorded results.  The geometry of this module is       *)
+(* native 32-bit integer arithmetic, valid for coordinates up to 2^13.     *)
+(* Every operation judged natively returns vertices that are input         *)
+(* vertices, intersection points, rectangle corners or offset points, i.e. *)
+(* within the inputs' magnitude plus a few deltas; a recorded result with  *)
+(* a coordinate beyond 4 x that magnitude + 8 |delta| + 64 (result units)  *)
+(* is wrong whatever the property, and is rejected under the event's own   *)
+(* clause BEFORE any geometry is evaluated on it (which would overflow and *)
+(* end the validation run as a tool error instead of a verdict).           *)
+(***************************************************************************)
+Fld(e, f) == IF f \in DOMAIN e THEN e[f] ELSE <<>>
+AbsMaxPath(path) ==
+  LET f[i \in 0..Len(path)] == IF i = 0 THEN 0 ELSE Max2(f[i - 1], Max2(Abs(path[i][1]), Abs(path[i][2]))) IN f[Len(path)]
+AbsMaxPaths(paths) ==
+  LET f[k \in 0..Len(paths)] == IF k = 0 THEN 0 ELSE Max2(f[k - 1], AbsMaxPath(paths[k])) IN f[Len(paths)]
+AbsMaxSeq(ints) ==
+  LET f[i \in 0..Len(ints)] == IF i = 0 THEN 0 ELSE Max2(f[i - 1], Abs(ints[i])) IN f[Len(ints)]
+NativeEvs == {"BooleanOp", "RectClip", "RectClipLines", "Sweep", "Mink", "Inflate", "TreeOp", "OpenOp", "BoolGroup", "BoolVariants",
+              "EngExec", "MagGroup"}
+InMag(e) ==
+  LET m1 == IF e.ev = "EngExec" THEN 0
+            ELSE Max2(AbsMaxPaths(Fld(e, "subj")), Max2(AbsMaxPaths(Fld(e, "clip")), IF e.ev = "OpenOp" THEN AbsMaxPaths(e.open) ELSE 0))
+      m2 == IF e.ev \in {"RectClip", "RectClipLines", "Inflate"} THEN AbsMaxPaths(Fld(e, "paths")) ELSE 0
+      m3 == IF e.ev = "Mink" THEN AbsMaxPath(e.path) + AbsMaxPath(e.pattern) ELSE 0
+      m4 == IF e.ev \in {"RectClip", "RectClipLines", "MagGroup"} THEN AbsMaxSeq(e.rect) ELSE 0
+      m5 == IF e.ev = "EngExec" THEN 64 ELSE 0            \* the Lifecycle pool
+  IN  Max2(Max2(m1, m2), Max2(Max2(m3, m4), m5))
+ResUnits(e) == IF e.ev \in {"TreeOp", "OpenOp"} THEN e.k ELSE IF e.ev = "EngExec" THEN 100 ELSE 1
+TameBound(e) == (4 * InMag(e) + 64) * ResUnits(e) + 2 * (IF "delta4" \in DOMAIN e THEN Abs(e.delta4) ELSE 0)   \* 2 delta4 = 8 delta
+OutMag(e) ==
+  LET flds == <<"sol", "solOpen", "uni", "flat", "res", "i", "u", "d", "x", "d2", "us", "uc", "us2", "solSwap", "solClosed", "freshPerm">>
+      f[n \in 0..Len(flds)] == IF n = 0 THEN 0 ELSE Max2(f[n - 1], AbsMaxPaths(Fld(e, flds[n])))
+      t == IF "tree" \in DOMAIN e THEN AbsMaxPaths([k \in 1..Len(e.tree) |-> e.tree[k].poly]) ELSE 0
+      r == IF "rings" \in DOMAIN e THEN AbsMaxPaths([k \in 1..Len(e.rings) |-> e.rings[k].pts]) ELSE 0
+      v == IF e.ev = "MagGroup" THEN AbsMaxPaths([n \in 1..Len(e.vars) |-> <<<<AbsMaxPaths(e.vars[n].q), 0>>>>])
+           ELSE IF e.ev = "BoolVariants" THEN AbsMaxPaths([n \in 1..Len(e.vars) |-> <<<<AbsMaxPaths(e.vars[n].sol), 0>>>>])
+           ELSE IF e.ev = "Mink" THEN AbsMaxPaths(e.kv.q) ELSE 0
+  IN  Max2(Max2(f[Len(flds)], t), Max2(r, v))
+Tame(e) == e.ev \notin NativeEvs \/ OutMag(e) <= TameBound(e)
+PrimaryClause(e) == IF Len(e.chk) > 0 THEN e.chk[1] ELSE "OUT"
+
+(***************************************************************************)
 (* Clause groups                                                           *)
 (***************************************************************************)
 \* C03: the call returned normally and reported success
@@ -651,12 +693,17 @@ C09OK(e) ==
       FarIn(p) == FarClosed(p, subj, Band4) /\ FarClosed(p, clip, Band4) IN
   \* open paths never appear in, or alter, the closed solution
   /\ Dt("C09.closed-region", \A n \in 1..Len(e.probes) : RegionOKAt(e.ct, e.fr, subj, clip, e.sol, e.probes[n]))
-  \* ... nor appear in it: a closed result path without area (an open line returned as a polygon) must also be
-  \* returned, vertex for vertex, by the same call made without the open paths (e.solClosed).  Exact equality
+  \* ... nor appear in it: a closed result path without area whose vertices all lie on the open subject lines (an
+  \* open line returned as a polygon) must also be returned, vertex for vertex, by the same call made without the
+  \* open paths (e.solClosed).  Exact equality
   \* of the two closed solutions is not demanded: the vertices of open paths add scan-lines, so intersection
   \* points of closed edges may be rounded one unit differently (measured: 1.2% of calls), inside the band
   /\ Dt("C09.closed-degenerate", \A n \in 1..Len(e.sol) :
-          (Len(e.sol[n]) < 3 \/ Area2(e.sol[n]) = 0) => \E m \in 1..Len(e.solClosed) : SameCyclic(e.solClosed[m], e.sol[n]))
+          (Len(e.sol[n]) < 3 \/ Area2(e.sol[n]) = 0) =>
+             \/ \E m \in 1..Len(e.solClosed) : SameCyclic(e.solClosed[m], e.sol[n])
+             \* (the extra scan-lines of the open vertices can also leave a different zero-area artefact of the CLOSED
+             \*  paths behind; it is an open line only if every vertex of it lies on the open subject lines)
+             \/ \E i \in 1..Len(e.sol[n]) : FarOpen(e.sol[n][i], open, Band4))
   \* the open solution consists of sub-polylines of the subject lines
   \* (a piece may degenerate to a single point where a line only touches the region)
   /\ \A j \in 1..Len(e.solOpen) : Dt(<<"C09.subpolyline", j>>,
@@ -763,8 +810,9 @@ ValidGroups(e) ==
      /\ (e.split > 0 /\ e.split < Len(e.paths)) =>
            (ValidPolySetG(SubSeq(e.paths, 1, e.split), g) /\ ValidPolySetG(SubSeq(e.paths, e.split + 1, Len(e.paths)), g))
 
-InflateRegionOK(e) ==
-  LET ad == Abs(e.delta4) tol4 == Tol4(e)
+\* x4: extra tolerance in quarter units (0 for the property; 4 in the signature of the listed finding "offset-rounding-3")
+InflateRegionOK(e, x4) ==
+  LET ad == Abs(e.delta4) tol4 == Tol4(e) + x4
       outer4 == (K1000(e) * ad + 999) \div 1000 + tol4
       polygon == e.et = 0
       InSrc(p) == polygon /\ WnPaths(p, e.paths) # 0
@@ -781,10 +829,10 @@ InflateRegionOK(e) ==
             /\ Dt(<<"inflate.strip", p>>, InStrips(e, p, ad - tol4, IF polygon THEN (IF rev THEN 1 ELSE -1) ELSE 0) => In(e.sol, p))
             /\ Dt(<<"inflate.round-near", p>>, (e.jt = 3 /\ polygon) => (SureNearSrc(e, p, ad - tol4) => In(e.sol, p)))
             /\ Dt(<<"inflate.outer-bound", p>>, (In(e.sol, p) /\ ~InSrc(p)) => NearSrc(e, p, outer4))
-       ELSE /\ (~InSrc(p) /\ FarClosed(p, e.paths, Band4)) => ~In(e.sol, p)
-            /\ InStrips(e, p, ad - tol4, IF rev THEN -1 ELSE 1) => ~In(e.sol, p)
-            /\ e.jt = 3 => (SureNearSrc(e, p, ad - tol4) => ~In(e.sol, p))
-            /\ (~In(e.sol, p) /\ InSrc(p)) => NearSrc(e, p, outer4)
+       ELSE /\ Dt(<<"shrink.outside-stays-out", p>>, (~InSrc(p) /\ FarClosed(p, e.paths, Band4)) => ~In(e.sol, p))
+            /\ Dt(<<"shrink.strip", p>>, InStrips(e, p, ad - tol4, IF rev THEN -1 ELSE 1) => ~In(e.sol, p))
+            /\ Dt(<<"shrink.round-near", p>>, e.jt = 3 => (SureNearSrc(e, p, ad - tol4) => ~In(e.sol, p)))
+            /\ Dt(<<"shrink.inner-bound", p>>, (~In(e.sol, p) /\ InSrc(p)) => NearSrc(e, p, outer4))
     \* open-path specifics (C10)
     /\ Dt(<<"inflate.butt", p>>, (e.et = 2 /\ In(e.sol, p)) => ButtOK(e, p, outer4, tol4))
     \* Square and Round ends extend delta BEYOND the end points: the half-disc of radius delta - tol on the far side
@@ -800,18 +848,46 @@ InflateRegionOK(e) ==
     \* a single point becomes a square / circle of radius delta
     /\ (~polygon /\ \E k \in 1..Len(e.paths) : Len(Src(e)[k]) = 1 /\ SureNearPt(p, Src(e)[k][1], ad - tol4)) => In(e.sol, p)
 
+\* a magnitude variant v = [k, t, sol (big), q (base units), qok]: q is sol mapped back, q = round((sol - t) / k)
+MapBackOK(v) ==
+  /\ v.qok /\ Len(v.sol) = Len(v.q)
+  /\ \A k \in 1..Len(v.sol) : Len(v.sol[k]) = Len(v.q[k]) /\
+       \A i \in 1..Len(v.sol[k]) : \A c \in 1..2 :
+          GB!Cmp(GB!Mul(GB!AbsB(GB!Sub(GB!Sub(v.sol[k][i][c], v.t[c]), GB!Mul(v.k, GB!FromInt(v.q[k][i][c])))), GB!FromInt(2)),
+                 GB!AbsB(v.k)) <= 0
+
+\* the same call with paths, delta and arc tolerance multiplied by e.kv.k (2^20 .. 2^34): mapped back to base units it
+\* describes the same region (3-unit band: 2 + the rounding of the mapping); "any delta", "any open polyline"
+\* (kind "skip": the harness did not record a variant of more than 4 000 vertices - Ellipse64 picks its step count
+\*  from the radius when fewer than three steps would do)
+InflateScaledOK(e) ==
+  e.kv.kind = "skip" \/
+  /\ Dt("inflate.scaled-outcome", e.kv.out = "ok" /\ MapBackOK(e.kv))
+  /\ AbsMaxPaths(e.kv.q) <= TameBound(e)
+  /\ \A n \in 1..Len(e.probes) :
+       LET p == e.probes[n] IN
+       Dt(<<"inflate.scaled-region", p>>, (FarClosed(p, e.sol, 12) /\ FarClosed(p, e.kv.q, 12)) => (In(e.sol, p) = In(e.kv.q, p)))
+
 InflateOK5(e) ==
-  /\ \A k \in 1..Len(e.sol) : PathCanonical(e.sol[k]) \/ Abs(e.delta4) < 2
+  /\ \A k \in 1..Len(e.sol) : Dt(<<"inflate.path-canonical", k>>, PathCanonical(e.sol[k]) \/ Abs(e.delta4) < 2)
   /\ IF Abs(e.delta4) < 2
      THEN e.sol = [k \in 1..Len(e.paths) |-> StripDup(e.paths[k], SrcClosed(e))]
-     ELSE InflateRegionOK(e)
+     ELSE InflateRegionOK(e, 0) /\ InflateScaledOK(e)
+
+\* signature of the listed finding "offset-rounding-3": every clause holds once the tolerance is 3 units (+ arc
+\* tolerance) instead of 2: the end points of the offset edges are rounded to integers before the edges are
+\* intersected, so at a sharp corner between two short edges the corner of the result can sit up to about 2.5
+\* units from its exact place
+InflateSig3(e) ==
+  /\ \A k \in 1..Len(e.sol) : PathCanonical(e.sol[k])
+  /\ Abs(e.delta4) >= 2 /\ InflateRegionOK(e, 4) /\ InflateScaledOK(e)
 
 InflateOK(e, idx) ==
   /\ Chk("OUT", idx, OutOK(e))
   /\ Has(e, "ARGS") => Chk("ARGS", idx, e.argsSame)
   /\ Has(e, "DET") => Chk("DET", idx, e.sol2same)
-  /\ Has(e, "C05") => (Chk("GENERATOR", idx, e.et = 0 /\ ValidGroups(e)) /\ Chk("C05", idx, InflateOK5(e)))
-  /\ Has(e, "C10") => (Chk("GENERATOR", idx, e.et \in 1..4 /\ e.delta4 >= 2) /\ Chk("C10", idx, InflateOK5(e)))
+  /\ Has(e, "C05") => (Chk("GENERATOR", idx, e.et = 0 /\ ValidGroups(e)) /\ ChkF("C05", idx, InflateOK5(e), "offset-rounding-3", InflateSig3(e)))
+  /\ Has(e, "C10") => (Chk("GENERATOR", idx, e.et \in 1..4 /\ e.delta4 >= 2) /\ ChkF("C10", idx, InflateOK5(e), "offset-rounding-3", InflateSig3(e)))
 
 (***************************************************************************)
 (* Minkowski sum / difference (C08).  The result is the region swept by    *)
@@ -821,13 +897,6 @@ InflateOK(e, idx) ==
 (* across an edge of a parallelogram (path edge (+) +-pattern edge), so    *)
 (* the claim is made at probes farther than 2 from all those edges.        *)
 (***************************************************************************)
-MapBackOK(v) ==
-  /\ v.qok /\ Len(v.sol) = Len(v.q)
-  /\ \A k \in 1..Len(v.sol) : Len(v.sol[k]) = Len(v.q[k]) /\
-       \A i \in 1..Len(v.sol[k]) : \A c \in 1..2 :
-          GB!Cmp(GB!Mul(GB!AbsB(GB!Sub(GB!Sub(v.sol[k][i][c], v.t[c]), GB!Mul(v.k, GB!FromInt(v.q[k][i][c])))), GB!FromInt(2)),
-                 GB!AbsB(v.k)) <= 0
-
 MinkLast(e) == IF Len(e.path) = 1 THEN 1 ELSE IF e.closed THEN Len(e.path) ELSE Len(e.path) - 1
 MinkSg(e) == IF e.sum THEN 1 ELSE -1
 Shift(c, a, sg) == <<c[1] + sg * a[1], c[2] + sg * a[2]>>
@@ -905,7 +974,9 @@ C07OK(e) ==
        /\ ResultMatches(e.rd9, e.r64)
        /\ e.td = e.t64
 
-DvsIOK(e, idx) == Has(e, "C07") => Chk("C07", idx, C07OK(e))
+DvsIOK(e, idx) ==
+  /\ Has(e, "ARGS") => Chk("ARGS", idx, e.argsSame)
+  /\ Has(e, "C07") => Chk("C07", idx, C07OK(e))
 
 (***************************************************************************)
 (* Independence of coordinate magnitude (C13).  An operation is run on a   *)
